@@ -590,6 +590,12 @@ class Evaluator:
                 # a[:] = v with an opaque array v on a concrete list: numpy's element-wise copy - the list object stays, its content is v's
                 for k_ in range(len(container)):
                     container[k_] = Sym(f"{value.name}[{k_}]")
+            elif isinstance(container, list) and isinstance(key, list) and key and all(isinstance(k_, int) and not isinstance(k_, bool) for k_ in key) and isinstance(value, list) and len(value) == len(key):
+                # numpy's a[[i, j, k]] = rows: row by row
+                for k_, v_ in zip(key, value):
+                    if not -len(container) <= k_ < len(container):
+                        raise Raised("IndexError")
+                    container[k_] = v_
             elif isinstance(container, (list, dict)):
                 try:
                     container[key] = value
